@@ -604,14 +604,16 @@ def run_c15(case, fail):
         # the wrapped estimator refused the training set: documented fallback = empirical mean / std of the LABELED targets (0 / 1 by default)
         exp_mu = float(np.mean(y[lab_mask])) if n_lab else 0.0
         exp_sd = float(np.std(y[lab_mask])) if n_lab > 1 else 1.0
+        # labeled targets that are all equal give the label std 0: a case of its own (recorded finding for the normal wrapper)
+        tg = ".identical_targets" if (n_lab > 1 and exp_sd == 0.0) else ""
         try:
             mu = np.asarray(m.predict(Xq), dtype=float)
             if not np.allclose(mu, exp_mu):
-                fail("C15.fallback_mean_not_the_label_mean", f"predicts {np.round(mu, 3).tolist()}, mean of the {n_lab} labeled targets is {exp_mu:.4g} (sentinel {ml})")
+                fail("C15.fallback_mean_not_the_label_mean" + tg, f"predicts {np.round(mu, 3).tolist()}, mean of the {n_lab} labeled targets is {exp_mu:.4g} (sentinel {ml})")
             if z["prob"]:
                 _, sd = m.predict(Xq, return_std=True)
                 if not np.allclose(sd, exp_sd):
-                    fail("C15.fallback_std_not_the_label_std", f"std {np.round(sd, 3).tolist()}, expected {exp_sd:.4g} (sentinel {ml})")
+                    fail("C15.fallback_std_not_the_label_std" + tg, f"std {np.round(sd, 3).tolist()}, expected {exp_sd:.4g} (sentinel {ml})")
         except Exception as e:
             fail("C15.predict_raised", f"{type(e).__name__}: {str(e)[:120]} (fallback, {n_lab} labels of {n})")
         return
